@@ -74,6 +74,9 @@ struct Replay {
     cnt: Vec<usize>,
     sums: Rows,
     c0: Rows,
+    /// an earlier batch had an assignment too close to call: the cumulative counts were re-read from the model,
+    /// the sums of "everything ever assigned" are no longer known (running mean not judged any more)
+    tainted: bool,
 }
 
 /// one batch of the oracle: assignment against the centroids at the start of the batch, documented
@@ -88,8 +91,10 @@ fn km_batch_oracle(ctx: &mut Ctx, class: &str, bi: usize, m: Metric, rp: &mut Re
     let mut inert = 0.0;
     for x in b {
         let (c, d, gap) = nearest(m, &rp.cs, x);
-        // an exact tie is decided by the first-minimum rule on lattice inputs; a gap within rounding distance is not judged
-        if gap != 0.0 && gap < 1e-9f64.max(t) {
+        // an exact tie is decided by the first-minimum rule on lattice inputs; a gap within rounding distance is not
+        // judged.  In f32 (t > 1e-12) a tie that is exact for the oracle (f64 arithmetic on the widened centroids) need
+        // not be exact for the implementation (f32 distance sums of non-lattice centroids), so it is not judged either
+        if (gap != 0.0 || t > 1e-12) && gap < 1e-9f64.max(t) {
             tie = true;
         }
         inert += d;
@@ -104,6 +109,9 @@ fn km_batch_oracle(ctx: &mut Ctx, class: &str, bi: usize, m: Metric, rp: &mut Re
         ctx.require(got_cnt.iter().zip(&rp.cnt).all(|(a, b)| *a == *b as f64), "cumulative_counts", class, || format!("batch {}: cluster_count {:?}, cumulative assignments {:?}", bi, got_cnt, rp.cnt));
         for c in 0..k {
             ctx.require(near_v(&got_cs[c], &want[c], t), "recurrence", class, || format!("batch {}: centroid {} = {:?}, recurrence from the previous state gives {:?}", bi, c, got_cs[c], want[c]));
+            if rp.tainted {
+                continue;
+            }
             if rp.cnt[c] > 0 {
                 let mean: Vec<f64> = rp.sums[c].iter().map(|s| s / rp.cnt[c] as f64).collect();
                 ctx.require(near_v(&got_cs[c], &mean, if t <= 1e-12 { 1e-9 } else { 10.0 * t }), "running_mean", class, || format!("batch {}: centroid {} = {:?}, mean of the {} points ever assigned {:?}", bi, c, got_cs[c], rp.cnt[c], mean));
@@ -112,6 +120,11 @@ fn km_batch_oracle(ctx: &mut Ctx, class: &str, bi: usize, m: Metric, rp: &mut Re
             }
         }
         ctx.require(near(inertia, inert, t.max(1e-12)), "inertia", class, || format!("batch {}: inertia {} but the mean distance of the batch to its closest start centroids is {}", bi, inertia, inert));
+    }
+    if tie {
+        // the assignment of this batch is not decidable by the oracle: continue from the model's own counts
+        rp.cnt = got_cnt.iter().map(|v| *v as usize).collect();
+        rp.tainted = true;
     }
     let shift = m.dist(&rp.cs.concat(), &got_cs.concat());
     // exact equality is a real boundary on lattice inputs and is judged; only a shift within rounding
@@ -143,7 +156,7 @@ fn km_history<D: Distance<f64> + std::fmt::Debug + 'static>(ctx: &mut Ctx, dist_
     let params = KMeans::params_with(k, Xoshiro256Plus::seed_from_u64(seed), dist_fn).tolerance(tol).init_method(KMeansInit::Precomputed(arr2(c0, p))).check().expect("valid k-means parameters");
     let mut model: Option<KMeans<f64, D>> = None;
     let mut parts = vec![];
-    let mut rp = Replay { cs: c0.clone(), cnt: vec![0; k], sums: vec![vec![0.0; p]; k], c0: c0.clone() };
+    let mut rp = Replay { cs: c0.clone(), cnt: vec![0; k], sums: vec![vec![0.0; p]; k], c0: c0.clone(), tainted: false };
     for (bi, b) in batches.iter().enumerate() {
         let ds = DatasetBase::from(arr2(b, p));
         let (mo, conv) = match params.fit_with(model.take(), &ds) {
@@ -185,7 +198,7 @@ fn op_km_f32(em: &mut Em, c0: &Rows, batches: &[Rows], tol: f64, seed: u64) {
         let a32 = |r: &Rows| Array2::<f32>::from_shape_fn((r.len(), p), |(i, j)| r[i][j] as f32);
         let params = KMeans::<f32, L2Dist>::params_with_rng(k, Xoshiro256Plus::seed_from_u64(seed)).tolerance(tol as f32).init_method(KMeansInit::Precomputed(a32(c0))).check().expect("valid k-means parameters");
         let mut model: Option<KMeans<f32, L2Dist>> = None;
-        let mut rp = Replay { cs: c0.clone(), cnt: vec![0; k], sums: vec![vec![0.0; p]; k], c0: c0.clone() };
+        let mut rp = Replay { cs: c0.clone(), cnt: vec![0; k], sums: vec![vec![0.0; p]; k], c0: c0.clone(), tainted: false };
         for (bi, b) in batches.iter().enumerate() {
             let ds = DatasetBase::from(a32(b));
             let (mo, conv) = match params.fit_with(model.take(), &ds) {
@@ -302,14 +315,14 @@ fn km_init_history<D: Distance<f64> + std::fmt::Debug + 'static>(ctx: &mut Ctx, 
         let order: Vec<usize> = if lowest.is_empty() { explaining.clone() } else { lowest };
         let dry = |ci: usize| -> usize {
             let c0 = cands[ci].0.clone();
-            let mut rp = Replay { cs: c0.clone(), cnt: vec![0; k], sums: vec![vec![0.0; p]; k], c0 };
+            let mut rp = Replay { cs: c0.clone(), cnt: vec![0; k], sums: vec![vec![0.0; p]; k], c0, tainted: false };
             let mut scratch = Ctx { fails: vec![], trivial: false };
             km_batch_oracle(&mut scratch, &class, 0, m, &mut rp, &batches[0], tol, &got[0].0, &got[0].1, got[0].2, got[0].3, 1e-12);
             scratch.fails.len()
         };
         let chosen = order.iter().cloned().find(|ci| dry(*ci) == 0).unwrap_or(order[0]);
         let c0 = cands[chosen].0.clone();
-        let mut rp = Replay { cs: c0.clone(), cnt: vec![0; k], sums: vec![vec![0.0; p]; k], c0 };
+        let mut rp = Replay { cs: c0.clone(), cnt: vec![0; k], sums: vec![vec![0.0; p]; k], c0, tainted: false };
         for (bi, b) in batches.iter().enumerate() {
             km_batch_oracle(ctx, &class, bi, m, &mut rp, b, tol, &got[bi].0, &got[bi].1, got[bi].2, got[bi].3, 1e-12);
         }
@@ -331,7 +344,7 @@ fn op_km_init(em: &mut Em, m: Metric, init: Init, k: usize, n_runs: usize, batch
 
 pub(super) fn run(em: &mut Em, rng: &mut Rng) {
     let thorough = em.thorough();
-    let nkm = if thorough { 3000 } else { 400 };
+    let nkm = if thorough { 6000 } else { 800 };
     for i in 0..nkm {
         let k = 1 + rng.below(4);
         let p = 1 + rng.below(3);
@@ -352,7 +365,7 @@ pub(super) fn run(em: &mut Em, rng: &mut Rng) {
         }
     }
     // first-batch initialisation inside fit_with(None, ..)
-    let nin = if thorough { 2000 } else { 300 };
+    let nin = if thorough { 4000 } else { 600 };
     for _ in 0..nin {
         let p = 1 + rng.below(3);
         let kind = rng.below(3);
